@@ -270,6 +270,28 @@ def _md5():
     return iv, fs, idx, ks, ss
 
 
+# ------------------------------------------------------------------ bit counters (two 32-bit words)
+
+def _len_shifts():
+    """The statements that keep the 64-bit message length of MD5 and SHA-1 in two 32-bit words.
+    The high word only moves for a single update of 2^29 bytes or more (or after 2^29 bytes in
+    all), which no differential run reaches: these statements are translated, not sampled."""
+    md5 = re.sub(r"\s+", "", fn_body(strip_comments(src("md5.c")), "MD5Update"))
+    m = re.search(r"t=ctx->bits\[0\];if\(\(ctx->bits\[0\]=\(t\+\(\(uint32_t\)len<<(\d+)\)\)&0xffffffff\)<t\)"
+                  r"ctx->bits\[1\]\+\+;ctx->bits\[1\]\+=len>>(\d+);", md5)
+    if not m:
+        raise ExtractError("MD5Update: bit count statements (bits[0] += len << 3 with carry, "
+                           "bits[1] += len >> 29) not found")
+    md5s = (int(m.group(1)), int(m.group(2)))
+    sha1 = re.sub(r"\s+", "", fn_body(strip_comments(src("sha1.c")), "crypto_SHA1_Update"))
+    m = re.search(r"if\(\(context->count\[0\]\+=\(uint32_t\)len<<(\d+)\)<\(\(uint32_t\)len<<(\d+)\)\)"
+                  r"context->count\[1\]\+\+;context->count\[1\]\+=\(uint32_t\)\(len>>(\d+)\);", sha1)
+    if not m or m.group(1) != m.group(2):
+        raise ExtractError("crypto_SHA1_Update: bit count statements (count[0] += len << 3 with carry, "
+                           "count[1] += len >> 29) not found")
+    return md5s, (int(m.group(1)), int(m.group(3)))
+
+
 # ------------------------------------------------------------------ HMAC
 
 def _hmac():
@@ -305,6 +327,7 @@ def gen_hash():
     s5_iv, s5_k, s5_sig = _sha512()
     m_iv, m_f, m_idx, m_k, m_s = _md5()
     pads, thr, small, large, sizes = _hmac()
+    md5_sh, sha1_sh = _len_shifts()
 
     def sig(d, name):
         return "(%d, %d, %d)" % d[name]
@@ -348,6 +371,10 @@ def gen_hash():
         "def md5StepK : List UInt32 := " + _hex_list(m_k) + "\n\n"
         "/-- per `MD5STEP` line: left-rotation amount -/\n"
         "def md5StepS : List Nat := " + lean_list(m_s, 16) + "\n\n"
+        "/-- `MD5Update`: bits[0] += len << a (carry into bits[1]); bits[1] += len >> b -/\n"
+        "def md5LenShifts : Nat × Nat := (%d, %d)\n"
+        "/-- `crypto_SHA1_Update`: count[0] += len << a (carry into count[1]); count[1] += len >> b -/\n"
+        "def sha1LenShifts : Nat × Nat := (%d, %d)\n\n"
         "/-! ### HMAC (src/scram.c crypto_HMAC) -/\n"
         "def hmacIpad : UInt8 := 0x%02x\n"
         "def hmacOpad : UInt8 := 0x%02x\n"
@@ -358,7 +385,7 @@ def gen_hash():
         "def sha1DigestSize : Nat := %d\n"
         "def sha256DigestSize : Nat := %d\n"
         "def sha512DigestSize : Nat := %d\n\n"
-        "end Strophe.Gen\n" % (pads["ipad"], pads["opad"], thr, small, large,
+        "end Strophe.Gen\n" % (md5_sh[0], md5_sh[1], sha1_sh[0], sha1_sh[1], pads["ipad"], pads["opad"], thr, small, large,
                                sizes["SHA1_DIGEST_SIZE"], sizes["SHA256_DIGEST_SIZE"],
                                sizes["SHA512_DIGEST_SIZE"]))
     write("HashConsts", body)
